@@ -37,7 +37,9 @@ META = {
     "for the sqrt(rho)* mechanism law only), n_channels<=2 exhaustive, 3 sampled (thorough), points whose common "
     "denominator exceeds 18000 are outside the 32-bit budget and only cross-checked against the reference. The clause "
     "'at every real parameter point' of the fully parametrised T is an observation law (kind N): 30-digit evaluation of the "
-    "library's expression at seeded points with pole masses above all thresholds; TLC judges the quantised residuals only.",
+    "library's expression at seeded points; the main family keeps pole masses above all thresholds, a dedicated family puts a pole "
+    "mass below the threshold of one of its channels (finding RelativisticKMatrix:unitarity:pole-mass-below-a-channel-threshold); "
+    "TLC judges the quantised residuals only.",
     "design_ref": "DESIGN.md §4 C09",
 }
 
@@ -53,7 +55,7 @@ REF_LAWS = ["RelThatLaw", "RelTLaw", "NonRelLaw", "RelIsNonRelOfScaledK", "RelSy
             "NonRelUnitary", "UnitaryFormsAgree", "NonRelFLaw", "FViaT", "RelFhatLaw", "RelFLaw", "FrelClosed"]
 
 MACHINERY_CLAUSES = {"lattice-point", "order", "K-logged", "rho-logged", "P-logged", "budget", "class", "record-kind",
-                     "run-open", "run-complete", "run-closed", "param-args", "pparam-args", "spec-symmetric", "obs-precondition"}
+                     "run-open", "run-complete", "run-closed", "param-args", "pparam-args", "spec-symmetric", "obs-precondition", "obsb-precondition"}
 MECHANISM = {"That(1-i.rho.K)=K", "T=sqrt(rho)*.That.sqrt(rho)", "T(1-iK)=K"}
 
 
@@ -288,7 +290,7 @@ def run(chk, replay=None):
         Xs = ["PhaseSpaceFactor", "PhaseSpaceFactorAbs", "PhaseSpaceFactorComplex", "PhaseSpaceFactorSWave",
               "EqualMassPhaseSpaceFactor", "BreakupMomentumSquared", "VfPhaseSpace"]
         pjobs, cjobs, ojobs = [], [], []
-        if not replay or replay.get("case", {}).get("kind") in ("param", "compose", "obs"):
+        if not replay or replay.get("case", {}).get("kind") in ("param", "compose", "obs", "obsb"):
             nps = (1, 2, 4) if tier == "quick" else (1, 2, 3, 4)
             argsets = [(0, 1, "PhaseSpaceFactor"), (2, 3, "PhaseSpaceFactorAbs"), (1, 2, "VfPhaseSpace"), (4, 1, "PhaseSpaceFactorComplex")]
             if tier == "thorough":
@@ -322,7 +324,7 @@ def run(chk, replay=None):
                             ojobs.append(("RelK", n, np_, L, 1 + (k % 3), X, chk.seed * 7919 + k))
             if tier == "thorough":  # n = 3 needs the 20-30 s skeletons: keep the list short
                 ojobs = [j for j in ojobs if j[1] < 3 or (j[2] in (1, 3) and j[3] in (0, 2, 4))]
-        if replay and replay.get("case", {}).get("kind") in ("param", "compose", "obs"):
+        if replay and replay.get("case", {}).get("kind") in ("param", "compose", "obs", "obsb"):
             c = replay["case"]
             pjobs = [tuple(c["job"])] if c["kind"] == "param" else []
             cjobs = [tuple(c["job"])] if c["kind"] == "compose" else []
@@ -333,18 +335,29 @@ def run(chk, replay=None):
         pfut = [pool.submit(kc.work_param, j) for j in pjobs]
         cfut = [pool.submit(kc.work_compose, j) for j in cjobs]
         ofut = [pool.submit(kc.work_obs, j) for j in ojobs]
-        bfut = pool.submit(kc.work_pole_below_threshold, chk.seed) if not replay else None
+        # dedicated family: a pole mass below the threshold of one of its channels (the property
+        # quantifies over all real pole masses); every such failure maps to ONE finding signature
+        bjobs = []
+        if not replay:
+            bjobs = [(1, 0, 1, "PhaseSpaceFactor", chk.seed, True), (1, 1, 1, "PhaseSpaceFactor", chk.seed, True),
+                     (1, 0, 1, "PhaseSpaceFactorAbs", chk.seed, True), (1, 1, 1, "PhaseSpaceFactorAbs", chk.seed, True)]
+            if tier == "thorough":
+                k = 0
+                for np_ in (1, 2):
+                    for L in (0, 1, 2):
+                        for X in ("PhaseSpaceFactor", "PhaseSpaceFactorAbs", "PhaseSpaceFactorComplex"):
+                            k += 1
+                            bjobs.append((np_, L, 1 + k % 2, X, chk.seed * 104729 + k, False))
+        elif replay.get("case", {}).get("kind") == "obsb":
+            bjobs = [tuple(replay["case"]["job"])]
+        bfut = [pool.submit(kc.work_obs_below, j) for j in bjobs]
 
         results = [f.result() for f in lattice_futs]
         skel_recs, errors = build_skel_records(results, plan)
         t_lattice = time.time() - t0
         srecs = [f.result() for f in pfut] + [f.result() for f in cfut]
         orecs = [f.result() for f in ofut]
-        if bfut is not None:
-            chk.note("boundary of the property, measured, not judged: RelativisticKMatrix n_channels=2, n_poles=1 with the pole mass (1.5) below the "
-                     "threshold of channel 1 (m_a[1]=m_b[1]=0.9) and s=5 above every threshold: " + "; ".join(bfut.result())
-                     + ". The energy-dependent width divides by rho(m_R^2) and the form factor at m_R^2, which are imaginary / negative there, so K is "
-                     "not real; the observation law therefore requires every pole mass above every channel threshold (field mthr).")
+        orecs += [f.result() for f in bfut]
     finally:
         pool.shutdown(wait=True, cancel_futures=True)
 
@@ -479,6 +492,18 @@ def run(chk, replay=None):
                               f"formulate(n_channels={rec['n']}, n_poles={rec['np']}, flag={rec['flag']}, phsp={rec['X']}, L={rec['L']}, d={rec['d']}) differs "
                               f"numerically (rel. {rec['_diff']:.3g}) from its own parametrize=False skeleton with K_ij := parametrization(i,j), "
                               "rho_i := phsp(s, m_a[i], m_b[i])", {"kind": "compose", "job": job})
+            elif rec["k"] == "obsb":
+                pt = (f"n_channels=2 n_poles={rec['np']} L={rec['L']} d={rec['d']} phsp={rec['X']} at {rec['_pt']} "
+                      f"(s above every threshold, a pole mass below the threshold of channel 1): unitarity residual {rec.get('_u')}, symmetry {rec.get('_s')} {rec.get('_err', '')}")
+                case = {"kind": "obsb", "job": rec["_job"]}
+                if "unitarity-observed-pole-below-threshold" in names:
+                    chk.violation("RelativisticKMatrix:unitarity:pole-mass-below-a-channel-threshold",
+                                  "(1+2iT)^dagger(1+2iT) != 1 for real parameters, " + pt + ". EnergyDependentWidth divides by rho(m_R^2) and the form factor at "
+                                  "m_R^2, which are imaginary / negative below the channel threshold, so K is not real", case)
+                if "symmetry-observed-pole-below-threshold" in names:
+                    chk.violation("RelativisticKMatrix:symmetry:pole-mass-below-a-channel-threshold", "T != T^T, " + pt, case)
+                if "finite-observed-pole-below-threshold" in names:
+                    chk.violation("RelativisticKMatrix:not-finite:pole-mass-below-a-channel-threshold", "T has no finite value, " + pt, case)
             elif rec["k"] == "obs":
                 job = [rec["cls"], rec["n"], rec["np"], rec["L"], rec["d"], rec["X"], None]
                 for c in sorted(names):
@@ -489,7 +514,7 @@ def run(chk, replay=None):
         for r in by_id.values():
             if r["k"] in ("param", "compose") and r.get("eq") == 2:
                 chk.spec_drift(f"{full_name(r['cls'])}: {r['k']} record equal only numerically, not as terms ({ {k: r[k] for k in ('i', 'j', 'n', 'np', 'X') if k in r} })")
-            if r["k"] in ("param", "compose", "obs"):
+            if r["k"] in ("param", "compose", "obs", "obsb"):
                 chk.count(1)
                 key = tuple(r.get(k) for k in ("k", "cls", "i", "j", "n", "np", "flag", "L", "d", "X"))
                 if r["k"] != "param" or r["i"] != r["j"]:
